@@ -165,6 +165,12 @@ Definition func_name (f : func) : string :=
   match f with
   | FAbs => "abs" | FNeg => "neg" | FSafediv => "safediv" | FLength => "length" | FUpper => "upper" | FLower => "lower"
   | FBool => "bool" | FIntOfDec => "int" | FDecOfInt => "decimal" | FSubstr => "substr"
+  | FYear => "year" | FMonth => "month" | FDay => "day" | FYearmonth => "yearmonth" | FQuarter => "quarter"
+  | FWeekday => "weekday" | FDateAdd => "date_add" | FDateDiff => "date_diff" | FDateTrunc => "date_trunc"
+  | FDatePart => "date_part" | FDateBin => "date_bin" | FDateYmd | FDate => "date"
+  | FStr => "str" | FInt => "int" | FDecimal => "decimal" | FSplitcomp => "splitcomp" | FMaxwidth => "maxwidth"
+  | FRoot | FRoot1 => "root" | FParent => "parent" | FLeaf => "leaf"
+  | FRoundInt | FRoundInt1 | FRoundDec | FRoundDec1 => "round"
   end.
 
 (* argument dtypes for which Eval.apply_func implements the overload (the compiler also lets a bool
@@ -178,6 +184,23 @@ Definition func_dom (f : func) (ts : list ty) : bool :=
   | FIntOfDec, [TDec] => true
   | FDecOfInt, [TInt] => true
   | FSubstr, [TStr; TInt; TInt] => true
+  (* the C18 library: the overloads whose model is TOTAL on every value of the declared types (result: NULL or a
+     value of the announced type).  The library functions that can raise on well-typed arguments (date_add:
+     OverflowError; yearmonth / date_trunc: datetime.date(...) on an ordinal outside date.min..date.max, which the
+     untyped [VDate o] admits; date_bin; splitcomp: IndexError / ValueError; maxwidth: ValueError; round(Decimal):
+     InvalidOperation; decimal(str | object): Infinity / NaN are not [value]s) are reachable by Eval.eval but stay
+     untyped: Eval.eval does not propagate exceptions (an exception VALUE compared with = gives FALSE), so typing
+     them would let the lowering accept statements whose exception the model could mask. *)
+  | FYear, [TDate] | FMonth, [TDate] | FDay, [TDate] | FQuarter, [TDate] | FWeekday, [TDate] => true
+  | FDateDiff, [TDate; TDate] => true
+  | FDatePart, [TStr; TDate] => true
+  | FDateYmd, [TInt; TInt; TInt] => true
+  | FDate, [_] => true                                     (* date(date), date(str), date(object) <- every other dtype *)
+  | FStr, [_] => true                                      (* str(any) *)
+  | FInt, [(TStr | TBool | TInt | TDate | TObject | TNone)] => true      (* int(Decimal) is FIntOfDec *)
+  | FDecimal, [(TBool | TDec)] => true                     (* decimal(int) is FDecOfInt *)
+  | FRoot, [TStr; TInt] | FRoot1, [TStr] | FParent, [TStr] | FLeaf, [TStr] => true
+  | FRoundInt, [TInt; TInt] | FRoundInt1, [TInt] => true
   | _, _ => false
   end.
 
@@ -190,6 +213,24 @@ Definition func_sig (f : func) (ts : list ty) : list string :=
   | FBool => ["any"]
   | FDecOfInt => ["int"]
   | FSubstr => ["str"; "int"; "int"]
+  | FYear | FMonth | FDay | FYearmonth | FQuarter | FWeekday => ["date"]
+  | FDateAdd => ["date"; "int"]
+  | FDateDiff => ["date"; "date"]
+  | FDateTrunc | FDatePart => ["str"; "date"]
+  | FDateBin => ["str"; "date"; "date"]
+  | FDateYmd => ["int"; "int"; "int"]
+  | FDate => match ts with [TStr] => ["str"] | [TDate] => ["date"] | _ => ["object"] end
+  | FStr => ["any"]
+  | FInt => match ts with [TStr] => ["str"] | [TBool] => ["bool"] | [TInt] => ["int"] | _ => ["object"] end
+  | FDecimal => match ts with [TBool] => ["bool"] | [TDec] => ["Decimal"] | [TStr] => ["str"] | _ => ["object"] end
+  | FSplitcomp => ["str"; "str"; "int"]
+  | FMaxwidth => ["str"; "int"]
+  | FRoot => ["str"; "int"]
+  | FRoot1 | FParent | FLeaf => ["str"]
+  | FRoundInt => ["int"; "int"]
+  | FRoundInt1 => ["int"]
+  | FRoundDec => ["Decimal"; "int"]
+  | FRoundDec1 => ["Decimal"]
   end.
 
 Fixpoint list_eqb (a b : list string) : bool :=
